@@ -75,6 +75,7 @@ func c04(c *Ctx) {
 	r.Floor("C04.R2", 6)
 	r.Floor("C04.R3", 2)
 	r.Floor("C04.R4", 3)
+	r.Floor("C04.R5", 2)
 	root := p.FuncsIn("")
 	when := p.NamedType("", "When")
 	matcherT := p.NamedType("", "Matcher")
@@ -400,6 +401,17 @@ func c04(c *Ctx) {
 		}
 	}
 
+	// ---- R5 matching never writes through the shared argument slice
+	for _, n := range matcherImpls(p) {
+		mf := declaredMethod(p, n, "Match")
+		if mf == nil || mf.Blocks == nil || len(mf.Params) < 2 {
+			continue
+		}
+		why := writesThroughParam(p, mf, mf.Params[1])
+		r.Check(why == "", "C04.R5", shortName(mf)+" leaves the call arguments untouched", p.Pos(mf.Pos()), "no store/append through the args parameter",
+			"Match writes into the argument slice it was given ("+why+"): the same slice is handed to every later-registered condition, which then sees corrupted arguments")
+	}
+
 	// ---- R4 variadic unwrapping confined to the tail
 	nUnwrap := 0
 	for _, f := range append(append([]*ssa.Function{}, root...), p.FuncsIn("arg")...) {
@@ -560,4 +572,31 @@ func notBeforeLast(k *Keyer, ia *ssa.IndexAddr, b *ssa.BasicBlock) bool {
 	it := k.TermOf(ia.Index)
 	lt := Term{"len(" + k.Key(ia.X) + ")", -1}
 	return m.EntailsLE(lt, it)
+}
+
+// writesThroughParam reports a store into, or an append onto, memory rooted at slice parameter prm ("" if none).
+func writesThroughParam(p *Prog, fn *ssa.Function, prm *ssa.Parameter) string {
+	why := ""
+	eachInstr(fn, func(i ssa.Instruction) {
+		switch x := i.(type) {
+		case *ssa.Store:
+			if ia, ok := x.Addr.(*ssa.IndexAddr); ok && rootedAt(ia.X, prm, map[ssa.Value]bool{}) {
+				why = "element store at " + p.Pos(posOf(i))
+			}
+		case *ssa.Call:
+			if bi, ok := x.Call.Value.(*ssa.Builtin); ok {
+				switch bi.Name() {
+				case "append":
+					if rootedAt(x.Call.Args[0], prm, map[ssa.Value]bool{}) {
+						why = "append onto a (re)slice of the parameter at " + p.Pos(posOf(i)) + " writes into its backing array when capacity allows"
+					}
+				case "copy":
+					if rootedAt(x.Call.Args[0], prm, map[ssa.Value]bool{}) {
+						why = "copy into the parameter at " + p.Pos(posOf(i))
+					}
+				}
+			}
+		}
+	})
+	return why
 }
